@@ -108,6 +108,22 @@ class TracedMap(dict):
         return dict.pop(self, k, *a)
 
 
+def client_may_proceed(rx, k, methods=None):
+    """has the client seen '100 Continue' for request k (0-based), or already its final response?"""
+    from .refhttp import response as RESP
+    ms = [m.encode() if isinstance(m, str) else m for m in (methods or [])] + [None] * 8
+    rs, _u, _p = RESP.parse_responses(rx, ms, eof=False, final_marker=b"x-call")
+    finals = 0
+    interim_after = False
+    for r in rs:
+        if r.interim:
+            if finals == k:
+                interim_after = True
+        elif r.complete or r.framing == "close":
+            finals += 1
+    return finals > k or (finals == k and interim_after)
+
+
 class Result:
     pass
 
@@ -184,7 +200,11 @@ class SchedRun:
         waits = cs.get("waits") or []
         for i, seg in enumerate(segs):
             wt = waits[i] if i < len(waits) else None
-            if wt == "continue":
+            if isinstance(wt, list) and wt and wt[0] == "continue":
+                # an RFC-compliant client: waits for the interim (or the final) response to request number wt[1]
+                k = wt[1]
+                self.sched.block(lambda: c.closed or client_may_proceed(bytes(c.client_rx), k, wt[2] if len(wt) > 2 else None), "client.wait-continue")
+            elif wt == "continue":
                 # a client that waits for 100 Continue (or any response bytes / close) before sending on
                 base = st.get("rx_mark", 0)
                 self.sched.block(lambda: self._has_response_progress(ci, base), "client.wait-continue")
